@@ -1,4 +1,4 @@
-import Fundraising.Props.C02
+import Fundraising.Proofs.C02Base
 /-
   C02 — final accounting over a whole history, stated over the monotone ledger of bank
   calls.  STATEMENTS ARE FIXED.
@@ -212,7 +212,7 @@ theorem final_accounting_escrows (ops : List Op) (hr : Op.reset ∉ ops) (hg : N
     (hs : v.a.status = .finished ∨ v.a.status = .cancelled) (d : Denom) :
     netFlow (ledgerOf ops) (.sell i) d = 0 ∧ netFlow (ledgerOf ops) (.pay i) d = 0 ∧
     netFlow (ledgerOf ops) (.vest i) d = 0 := by
-  obtain ⟨h1, h2, h3⟩ := C02_terminal_escrows_empty ops hg i v hv hs d
+  obtain ⟨h1, h2, h3⟩ := c02_terminal_escrows_empty ops hg i v hv hs d
   rw [← escrow_balance_is_ledger ops hr hg (.sell i) (Or.inl ⟨i, rfl⟩) d,
     ← escrow_balance_is_ledger ops hr hg (.pay i) (Or.inr (Or.inl ⟨i, rfl⟩)) d,
     ← escrow_balance_is_ledger ops hr hg (.vest i) (Or.inr (Or.inr ⟨i, rfl⟩)) d]
